@@ -29,6 +29,9 @@
 #define _GNU_SOURCE // for getutline_r()
 #endif
 #include "snoopy.h"
+#ifdef SNOOPY_CONF_THREAD_SAFETY_ENABLED
+#include "tsrm.h"
+#endif
 
 #include <arpa/inet.h>
 #include <stdio.h>
@@ -59,9 +62,13 @@ int snoopy_util_utmp_findUtmpEntryByLine (char const * const ttyLine, struct utm
     searchEntry.ut_line[UT_LINESIZE-1] = '\0';
 
     // Do the search
+#ifdef SNOOPY_CONF_THREAD_SAFETY_ENABLED
+    retVal = snoopy_tsrm_getutline(&searchEntry, resultEntryBuf, &resultEntry);
+#else
     setutent();
     retVal = getutline_r(&searchEntry, resultEntryBuf, &resultEntry);
     endutent();
+#endif
 
     // Failure/not found
     if (retVal != 0) {
